@@ -4,6 +4,7 @@ import (
 	"fmt"
 	"go/token"
 	"go/types"
+	"strconv"
 	"strings"
 
 	"golang.org/x/tools/go/ssa"
@@ -278,17 +279,17 @@ func init() {
 		"errors.Is": func(in *Interp, fn *ssa.Function, args []Value, caller *frame) Value {
 			return in.errorsIs(args[0].(Iface), args[1].(Iface), caller, 0)
 		},
-		"fmt.Sprintf": opaqueStr,
-		"fmt.Sprint":  opaqueStr,
+		"fmt.Sprintf":  opaqueStr,
+		"fmt.Sprint":   opaqueStr,
 		"fmt.Sprintln": opaqueStr,
 		"fmt.Errorf": func(in *Interp, fn *ssa.Function, args []Value, caller *frame) Value {
 			en := in.world.fn("errors", "New")
 			return in.call(en, []Value{sstr("<fmt>")}, caller)
 		},
-		"fmt.Println": nop,
-		"fmt.Printf":  nop,
-		"fmt.Print":   nop,
-		"fmt.Fprintf": nop,
+		"fmt.Println":  nop,
+		"fmt.Printf":   nop,
+		"fmt.Print":    nop,
+		"fmt.Fprintf":  nop,
 		"fmt.Fprintln": nop,
 		"(*strings.Builder).String": func(in *Interp, fn *ssa.Function, args []Value, _ *frame) Value {
 			b := args[0].(*Obj)
@@ -355,6 +356,12 @@ func init() {
 		// in {0,1} so that collisions of temporary names are reachable.
 		"github.com/avfs/avfs.nextRandom": func(in *Interp, fn *ssa.Function, args []Value, caller *frame) Value {
 			in.usedRandom = true
+			k := in.rnd
+			in.rnd++
+			if k >= 2 {
+				// from the third draw on the names are fresh (the retry loops terminate)
+				return sstr(strconv.Itoa(k))
+			}
 			v := in.newInput("nextRandom", 8, "random", types.Typ[types.Uint8]).(*Term)
 			if !in.cond(in.fromTerm(in.tm.Cmp("bvule", v, in.tm.Const(1, 8)), types.Typ[types.Bool])) {
 				in.endPath("ASSUME", "random digit out of the modelled range")
@@ -365,7 +372,7 @@ func init() {
 		"strconv.Itoa":       concArg0,
 		"strconv.FormatInt":  concArg0,
 		"strconv.FormatUint": concArg0,
-		"os.Getenv": func(in *Interp, fn *ssa.Function, args []Value, _ *frame) Value { return SStr(nil) },
+		"os.Getenv":          func(in *Interp, fn *ssa.Function, args []Value, _ *frame) Value { return SStr(nil) },
 	}
 	delete(intrTable, "sort.SliceStable")
 }
